@@ -260,7 +260,11 @@ func setPerturb(mode int, seed uint64) string {
 // ---------------------------------------------------------------------------------
 
 // every length 0..4096 on a 128-segment pool
-func TestSmallPoolEveryLength(t *testing.T) {
+func TestSmallPoolEveryLengthA(t *testing.T) { smallPoolEveryLength(t, 0) }
+func TestSmallPoolEveryLengthB(t *testing.T) { smallPoolEveryLength(t, 1) }
+
+// shard 0 takes the even blocks of 64 lengths, shard 1 the odd ones (parallel child processes)
+func smallPoolEveryLength(t *testing.T, shard int) {
 	run := obs.Start(t, "C03")
 	defer run.Done()
 	run.Rule("128-segment pool (capacity 3): EVERY data length 0..4096, each with 3 write splits (one write; random cuts incl. zero-length writes; cuts around 32/64-byte boundaries or 1..3-byte writes) x header kinds {zero,len,2^64-1,random} (quick: one header kind per split, rotating with the length; thorough: all four); hashers alternately fresh from the pool and the same object after Reset; distinct = (length, split kind); blocks of 64 lengths alternate no / seeded-yield / yield+sleep perturbation at the H8 points",
@@ -271,7 +275,7 @@ func TestSmallPoolEveryLength(t *testing.T) {
 	capB := p.capBytes()
 	headersPerSplit := run.N(1, 4)
 	var evals, cross int64
-	for b := 0; b <= capB/64; b++ {
+	for b := shard; b <= capB/64; b += 2 {
 		lo, hi := b*64, b*64+63
 		if hi > capB {
 			hi = capB
@@ -281,7 +285,7 @@ func TestSmallPoolEveryLength(t *testing.T) {
 			continue
 		}
 		rng := c.Rand()
-		mode := setPerturb(b, uint64(run.Seed())<<20^uint64(b))
+		mode := setPerturb(b/2, uint64(run.Seed())<<20^uint64(b))
 		var held *bmt.Hasher
 		for n := lo; n <= hi; n++ {
 			data, fill := fillData(rng, n, rng.Intn(8))
@@ -363,7 +367,11 @@ func prodLengths(rng *rand.Rand, capB int, nRandom int, denseTail int) []int {
 }
 
 // boundary-dense and random lengths on the production pool (pkg/bmtpool)
-func TestProdPoolBoundaries(t *testing.T) {
+func TestProdPoolBoundariesA(t *testing.T) { prodPoolBoundaries(t, 0) }
+func TestProdPoolBoundariesB(t *testing.T) { prodPoolBoundaries(t, 1) }
+
+// the sorted length list is dealt alternately to the two shards (parallel child processes)
+func prodPoolBoundaries(t *testing.T, shard int) {
 	run := obs.Start(t, "C03")
 	defer run.Done()
 	run.Rule("production pool bmtpool (8192 segments, 256 KiB): lengths 0,1,31..33,63..65,95..97,127..129, 2^k*32-1/+0/+1 (k=1..13), cap-64..cap, plus random lengths; 3 write splits per length (quick: 1 split for most lengths of the dense tail below capacity) with rotating header kinds; hashers from bmtpool.Get/Put, every third reused after Reset; distinct = (length, split kind)")
@@ -375,23 +383,26 @@ func TestProdPoolBoundaries(t *testing.T) {
 	lengths := prodLengths(lrng, capB, run.N(20, 600), run.N(64, 256))
 	var evals, cross int64
 	for idx, n := range lengths {
+		if idx%2 != shard {
+			continue
+		}
 		c := run.Begin(fmt.Sprintf("len/%d", n), map[string]interface{}{"pool": p.name, "len": n})
 		if c == nil {
 			continue
 		}
 		rng := c.Rand()
-		mode := setPerturb(idx, uint64(run.Seed())<<24^uint64(n))
+		mode := setPerturb(idx/2, uint64(run.Seed())<<24^uint64(n))
 		var held *bmt.Hasher
-		kinds := []string{"one", "random", []string{"sectionish", "tiny"}[idx%2]}
+		kinds := []string{"one", "random", []string{"sectionish", "tiny"}[idx/2%2]}
 		if d := capB - n; !run.Thorough() && n > capB/2+1 && d > 1 && d != 64 && d != 63 && (d < 31 || d > 33) {
-			kinds = kinds[idx%3 : idx%3+1]
+			kinds = kinds[idx/2%3 : idx/2%3+1]
 		}
 		data, fill := fillData(rng, n, 2+rng.Intn(6))
 		root := spec.BMTRoot(data, p.segments)
 		for si, sk := range kinds {
 			j := mkJobFrom(rng, data, fill, idx+si, sk)
 			want := spec.Keccak256(j.span, root)
-			if idx%24 == 0 && si == 0 {
+			if idx/2%12 == 0 && si == 0 {
 				if plain := spec.BMT(j.span, j.data); !bytes.Equal(plain, want) {
 					t.Fatalf("oracle self-check failed: sparse evaluation != BMT for len %d", n)
 				}
@@ -406,7 +417,7 @@ func TestProdPoolBoundaries(t *testing.T) {
 			}
 			got, problem := runCycle(h, j)
 			judge(c, clause, p, j, got, problem, want, map[string]interface{}{"perturbation": mode})
-			if si == 0 && idx%3 == 0 {
+			if si == 0 && idx/2%3 == 0 {
 				held = h
 			} else {
 				p.put(h)
@@ -427,19 +438,23 @@ func TestProdPoolBoundaries(t *testing.T) {
 }
 
 // the same hasher object / the same tree reused in adversarial orders
-func TestReuse(t *testing.T) {
+func TestReuseSmallPool(t *testing.T) { reuse(t, 0) }
+func TestReuseProdPool(t *testing.T)  { reuse(t, 1) }
+
+func reuse(t *testing.T, which int) {
 	run := obs.Start(t, "C03")
 	defer run.Done()
 	run.Rule("reuse sequences: one pool of capacity 1 (so Get always returns the same tree); each sequence is 12..24 complete cycles whose lengths follow adversarial patterns (full 0xff/random chunk then short; shrinking; growing; same length twice; partial write + more writes; zero-length writes; write to capacity in two pieces; empty input after long input); between cycles the hasher is either Reset and reused or Put back and fetched again; distinct = (pool, pattern, reuse way)",
 		"every cycle is complete: Reset, SetHeader (8 bytes), writes, Hash/Sum")
 	installHooks()
 	defer func() { cur = nil }()
-	pools := []poolKind{smallPool(1), prodPool()}
+	pools := []poolKind{smallPool(1), prodPool()}[which : which+1]
 	patterns := []string{"long-then-short", "shrinking", "growing", "same-twice", "cap-in-two", "empty-after-long", "random"}
 	var evals int64
-	for pi, p := range pools {
+	for _, p := range pools {
+		pi := which
 		capB := p.capBytes()
-		nseq := run.N(210, 2100)
+		nseq := run.N(140, 2100)
 		cyc := 24
 		if p.segments > 128 {
 			nseq = run.N(7, 140)
@@ -572,7 +587,7 @@ func TestArrivalOrders(t *testing.T) {
 				continue
 			}
 			rng := c.Rand()
-			n := run.N(300, 3000)
+			n := run.N(200, 3000)
 			for i := 0; i < n; i++ {
 				var l int
 				switch i % 4 {
@@ -622,7 +637,10 @@ func TestArrivalOrders(t *testing.T) {
 }
 
 // many goroutines, fewer trees than goroutines
-func TestConcurrentPoolUsers(t *testing.T) {
+func TestConcurrentSmallPool(t *testing.T) { concurrentPoolUsers(t, "seg128") }
+func TestConcurrentProdPool(t *testing.T)  { concurrentPoolUsers(t, "bmtpool8192") }
+
+func concurrentPoolUsers(t *testing.T, only string) {
 	run := obs.Start(t, "C03")
 	defer run.Done()
 	run.Rule("phases of W goroutines each looping Get -> SetHeader -> Write* -> Hash -> (sometimes Reset and a second cycle) -> Put on a pool with fewer trees than goroutines: private 128-segment pool (4 trees, 48 goroutines) and the production bmtpool (32 trees, 40 goroutines; at most one >4 KiB input in flight because the race detector caps live goroutines at 8128); GOMAXPROCS 2 and 16; with and without unsynchronised random yields/sleeps at the H8 points; expected digests precomputed; distinct = (pool, GOMAXPROCS, perturbation) phase",
@@ -637,15 +655,15 @@ func TestConcurrentPoolUsers(t *testing.T) {
 	}
 	var total int64
 	for _, gmp := range []int{2, 16} {
-		for _, kind := range []string{"seg128", "bmtpool8192"} {
+		for _, kind := range []string{only} {
 			for mode := 0; mode < 2; mode++ {
 				var p poolKind
-				workers, iters, corpusN := 48, run.N(30, 400), 300
+				workers, iters, corpusN := 48, run.N(20, 400), 300
 				if kind == "seg128" {
 					p = smallPool(4)
 				} else {
 					p = prodPool()
-					workers, iters, corpusN = 40, run.N(4, 50), 128
+					workers, iters, corpusN = 40, run.N(3, 50), 128
 				}
 				capB := p.capBytes()
 				c := run.Begin(fmt.Sprintf("phase/%s/gomaxprocs=%d/mode=%d", kind, gmp, mode),
